@@ -135,5 +135,4 @@ theorem hybrid_spec (x K T : Nat) (hK : 1 ≤ K) :
     · obtain ⟨h1, h2, _, _⟩ := s2 t h
       exact ⟨h1, Or.inl h2⟩
 
-#print axioms hybrid_spec
 end P.Bits
